@@ -84,6 +84,9 @@ def _history_cases(tier: str):
         ("jpsi_sigmabar_sigma", "helicity", ["@parent_hel", "@plain,parent_hel", "@no_child_hel,plain,parent_hel"]),
         ("jpsi_gamma_pi0_pi0", "canonical-helicity", ["@stable", "@fail,stable", "@plain,fail,fail,stable"]),  # a formulate() that RAISES (bad configuration), then a good one  # naming flags decide which chains share a coefficient
         ("jpsi_pi0_pip_pim", "helicity", ["axis", "plain,axis"]),  # three topologies, final-state id 0: names m_01 / m_1 tie under natural sorting
+        # every variant of the lineshape builders in ONE process: a module-level cache or constant that one variant mutates shows in the next
+        ("jpsi_gamma_pi0_pi0", "canonical-helicity", ["bw", "bwsff,bw", "bwff,bwedw,nodynff,bw"]),
+        ("jpsi_gamma_pi0_pi0", "canonical-helicity", ["bwff+", "bw,bwsff,bwff+", "nodynff,bwedw,bwff+"]),
     ]
     if tier == "thorough":
         cases += [
@@ -98,18 +101,21 @@ def _history_cases(tier: str):
 def _replay_purity(tier: str = "quick"):
     """Property-level replay used by every static obligation: run the history / seed matrix on the real code."""
     cases, seeds = _history_cases(tier)
-    jobs = []
-    for reaction, formalism, hists in cases:
+    jobs, row_of = [], {}
+    for row, (reaction, formalism, hists) in enumerate(cases):
         for h in hists:
             jobs.append((reaction, formalism, h, 0))
+            row_of[len(jobs) - 1] = row
         for s in seeds[1:]:
             jobs.append((reaction, formalism, hists[0], s))
+            row_of[len(jobs) - 1] = row
     with ThreadPoolExecutor(max_workers=min(16, os.cpu_count() or 4)) as ex:
         res = list(ex.map(lambda j: _run_history(*j), jobs))
     by_reaction: dict = {}
-    for j, r in zip(jobs, res):
-        # one group per (reaction, formalism, kind of history): one-builder histories ('@') have their own reference model
-        by_reaction.setdefault((j[0], j[1] + ("@" if j[2].startswith("@") else "")), []).append((j, r))
+    for i, (j, r) in enumerate(zip(jobs, res)):
+        # one group per ROW of the case table (its first history is the reference model of the row): two rows on the same reaction and
+        # formalism end in different configurations and must not be compared with each other
+        by_reaction.setdefault((j[0], f"{j[1]}|row{row_of[i]}"), []).append((j, r))
     return by_reaction
 
 
@@ -129,7 +135,7 @@ def build(chk: Check) -> None:
             for j, r in runs:
                 if r != ref:
                     diff = [k for k in ref if r.get(k) != ref.get(k)] if "error" not in r and "error" not in ref else ["error"]
-                    return {"reproduced": True, "input": {"reaction": reaction, "formalism": formalism, "history": j[2], "PYTHONHASHSEED": j[3],
+                    return {"reproduced": True, "input": {"reaction": reaction, "formalism": formalism.split("|")[0], "history": j[2], "PYTHONHASHSEED": j[3],
                                                           "reference_history": runs[0][0][2]},
                             "observed": {"attributes_that_differ": diff, "digest": r}, "expected": ref}
         return {"reproduced": False, "note": "all digests equal over the quick history/seed matrix"}
@@ -288,7 +294,7 @@ def build(chk: Check) -> None:
     n_runs = 0
     for (reaction, formalism), runs in matrix.items():
         ref_job, ref = runs[0]
-        f = "hel" if formalism.rstrip("@") == "helicity" else "can"
+        f = "hel" if formalism.split("|")[0] == "helicity" else "can"
         for j, r in runs:
             n_runs += 1
             tag = f"{reaction}/{f}/history={j[2].replace(',', '>')}/seed={j[3]}"
